@@ -194,7 +194,7 @@ def _replay(chunk, arg):
     viol, n, nontriv = [], 0, set()
     for raw in chunk:
         case = tlc.decode(raw) if isinstance(raw, str) else raw
-        viol.extend(check_case(W, case))
+        viol.extend(core.safe(check_case, case, W, case))
         if case["m"] == "dispatch":
             n += len(case["cases"])
             continue
